@@ -1,7 +1,12 @@
 use std::{fs::File, mem, sync::Arc};
 
 use log::{debug, trace};
-use parking_lot::{Mutex, RwLock, RwLockReadGuard, RwLockWriteGuard};
+use parking_lot::Mutex;
+#[cfg(not(feature = "verif"))]
+use parking_lot::{RwLock, RwLockReadGuard, RwLockWriteGuard};
+
+#[cfg(feature = "verif")]
+use crate::verif::{RwLock, RwLockReadGuard, RwLockWriteGuard};
 
 use crate::{Database, Error, Reader, RegionMetadata, Result, WeakDatabase};
 
@@ -17,6 +22,13 @@ pub(crate) struct RegionInner {
     meta: RwLock<RegionMetadata>,
     /// (min_offset, max_offset) relative to region start. (usize::MAX, 0) = clean.
     dirty_bounds: Mutex<(usize, usize)>,
+}
+
+#[cfg(feature = "verif")]
+impl Drop for RegionInner {
+    fn drop(&mut self) {
+        crate::verif::unregister_lock(crate::verif::lock_addr(&self.meta));
+    }
 }
 
 impl Region {
@@ -43,6 +55,22 @@ impl Region {
             meta: RwLock::new(meta),
             dirty_bounds: Mutex::new((usize::MAX, 0)),
         }))
+    }
+
+    #[cfg(feature = "verif")]
+    pub(crate) fn verif_register(&self) {
+        use crate::verif::{LockClass, lock_addr, register_lock};
+        register_lock(
+            lock_addr(&self.0.meta),
+            LockClass::Meta,
+            Arc::as_ptr(&self.0) as usize,
+        );
+    }
+
+    /// Address identifying this region (stable for the lifetime of its handles).
+    #[cfg(feature = "verif")]
+    pub fn verif_addr(&self) -> usize {
+        Arc::as_ptr(&self.0) as usize
     }
 
     #[inline]
